@@ -187,9 +187,27 @@ func registerEnvIntrinsics(reg func(string, intrinsicFn)) {
 // regexp: compiled natively, opaque objects; symbolic subjects are concretised.
 
 func registerRegexpIntrinsics(reg func(string, intrinsicFn)) {
+	reg("regexp.QuoteMeta", func(m *Machine, c *frame, fn *ssa.Function, a []Value) (Value, bool) {
+		s := argStr(a[0])
+		if s.Sym == nil {
+			return Str{S: regexp.QuoteMeta(s.S)}, true
+		}
+		// symbolic text: keep it unquoted and remember that it is to be matched literally
+		s.Lit = true
+		return s, true
+	})
 	compile := func(must bool) intrinsicFn {
 		return func(m *Machine, c *frame, fn *ssa.Function, a []Value) (Value, bool) {
 			pat := argStr(a[0])
+			if pat.Lit {
+				o := m.newObj(0, "regexp-literal")
+				pat.Lit = false
+				o.nat = &litRegex{pat: pat}
+				if must {
+					return Ptr{o, 0}, true
+				}
+				return Tuple{Ptr{o, 0}, Iface{}}, true
+			}
 			if pat.Sym != nil {
 				pat = m.concretizeValue(pat).(Str)
 			}
@@ -232,6 +250,9 @@ func registerRegexpIntrinsics(reg func(string, intrinsicFn)) {
 			p := a[0].(Ptr)
 			if p.o == nil {
 				m.goPanicRuntime("nil *regexp.Regexp")
+			}
+			if lit, ok := p.o.nat.(*litRegex); ok {
+				return m.litRegexCall(lit, name, a[1:])
 			}
 			re := p.o.nat.(*regexp.Regexp)
 			if len(a) > 1 && !deepConcrete(a[1]) {
@@ -380,3 +401,40 @@ func registerSortIntrinsics(reg func(string, intrinsicFn)) {
 }
 
 var _ = fmt.Sprint
+
+// litRegex is Compile(QuoteMeta(x)) for symbolic x: a literal substring matcher.
+type litRegex struct{ pat Str }
+
+func (m *Machine) litRegexCall(lit *litRegex, name string, a []Value) (Value, bool) {
+	subj := func() Str {
+		switch x := a[0].(type) {
+		case Str:
+			return x
+		case Slice:
+			return m.sliceToStr(x)
+		}
+		m.unsupported("literal regexp: subject %T", a[0])
+		return Str{}
+	}
+	switch name {
+	case "MatchString", "Match":
+		return BoolV{C: m.strIndex(subj(), lit.pat) >= 0}, true
+	case "FindStringIndex", "FindIndex":
+		i := m.strIndex(subj(), lit.pat)
+		if i < 0 {
+			return Slice{es: 1}, true
+		}
+		return m.intsSlice([]int{i, i + len(lit.pat.S)}), true
+	case "FindString":
+		s := subj()
+		i := m.strIndex(s, lit.pat)
+		if i < 0 {
+			return Str{}, true
+		}
+		return s.slice(i, i+len(lit.pat.S)), true
+	case "String":
+		return lit.pat, true
+	}
+	m.unsupported("literal regexp: method %s", name)
+	return nil, true
+}
